@@ -145,6 +145,13 @@ def run_case(case, want_trace=False):
             else:
                 tok = bytes([0xD0 + i, 0x77])
             mid = 0x2000 + i
+            if m.get("mid_like_own"):
+                # the peer's counter happens to be where A's own counter was for the last CON/NON that A originated
+                # towards it (the two message-ID spaces are independent, so such coincidences do occur)
+                own = [w for w in net.wire_fields() if w["src"] == A and w["dst"] == PEER and w["fields"] is not None and w["fields"]["type"] in (R.CON, R.NON) and w["fields"]["code"] != 0]
+                if own:
+                    mid = own[-1]["fields"]["mid"]
+                    labels.add("peer-mid-equals-own-mid")
             options = []
             payload = b""
             if 1 <= code < 32:
@@ -414,9 +421,21 @@ def _sequence(draw):
             # one or two copies of that request datagram, before or after its acknowledgement
             for _ in range(draw(st.integers(1, 2))):
                 msgs.append({"t": round(m["t"] + draw(st.sampled_from([0.0, 0.01, 0.04, 0.09, 0.11, 0.3, 0.6])), 3), "dup_of": len(msgs) - 1 if "dup_of" not in msgs[-1] else msgs[-1]["dup_of"], "type": m["type"], "code": m["code"]})
+    if draw(st.integers(0, 5)) == 0:
+        # A answers a slow request with a separate CON of its own; later the peer's next message carries that very ID
+        msgs.append({"t": 0.0, "type": "con", "code": "get", "mcast": 0, "token": "fresh", "handler": draw(st.sampled_from(["d0.101", "d0.5"])), "noresp": None})
+        late = {"t": draw(st.sampled_from([0.7, 1.0, 1.0])), "type": draw(st.sampled_from(["con", "con", "non"])), "mcast": 0, "mid_like_own": True}
+        if draw(st.booleans()):
+            late.update({"code": "empty", "token": "empty", "type": "con"})
+        else:
+            late.update({"code": "get", "token": "fresh", "handler": draw(st.sampled_from(["fast", "d0.05", "d0.5"])), "noresp": None})
+        msgs.append(late)
     case = {"msgs": msgs, "rng": draw(st.integers(0, 99))}
-    if draw(st.booleans()):
-        case["mid0"] = draw(st.sampled_from([0x1FFE, 0x2000, 0x2001, 0xFFFF]))
+    if any(m.get("mid_like_own") for m in msgs):
+        # A's own counter well away from the IDs the peer uses for its other messages: only the one coincidence
+        case["mid0"] = 0x7000 + draw(st.integers(0, 3))
+    elif draw(st.booleans()):
+        case["mid0"] = draw(st.sampled_from([0x1FFE, 0x2000, 0x2001, 0x2001, 0x2002, 0x2002, 0x2003, 0x2004, 0xFFFF]))  # (the peer numbers its messages from 0x2000)
     pa = draw(st.sampled_from(["prompt", "prompt", "late", "late", "never"]))
     if pa == "late":
         case["peer_ack_delay"] = draw(st.sampled_from([0.3, 1.0, 2.5]))
